@@ -143,7 +143,10 @@ func (s *String) ReadFrom(r io.Reader) (n int64, err error) {
 func readByte(r io.Reader) (int64, byte, error) {
 	if r, ok := r.(io.ByteReader); ok {
 		v, err := r.ReadByte()
-		return 1, v, err
+		if err != nil {
+			return 0, v, err
+		}
+		return 1, v, nil
 	}
 	var v [1]byte
 	n, err := io.ReadFull(r, v[:])
